@@ -84,6 +84,8 @@ struct TlsState {
     /// the n-th transport write fails once with this kind (a transient condition)
     write_fault: Option<(usize, io::ErrorKind)>,
     writes: usize,
+    /// the n-th transport read fails once with this kind, before it delivers anything
+    read_fault: Option<(usize, io::ErrorKind)>,
     /// the client->server stream ends (read returns 0) after this many bytes
     eof_at: Option<usize>,
     /// ends of the client messages inside `script` when each goes into its own TLS record
@@ -202,6 +204,11 @@ impl Read for TlsSim {
             return Err(io::Error::new(io::ErrorKind::Other, "VERIF op budget exhausted"));
         }
         s.pump();
+        if let Some((at, kind)) = s.read_fault {
+            if at + 1 == s.reads {
+                return Err(io::Error::new(kind, "VERIF transient read fault"));
+            }
+        }
         if let Some(e) = s.eof_at {
             if s.delivered >= e {
                 return Ok(0);
@@ -368,6 +375,7 @@ fn run_tls_full(server_tls: Option<Arc<rustls::ServerConfig>>, client_cert: bool
         reads: 0,
         write_fault: WRITE_FAULT.with(|w| w.get()),
         writes: 0,
+        read_fault: READ_FAULT.with(|w| w.get()),
         eof_at: EOF_AT.with(|w| w.get()),
         part_ends: if PER_MESSAGE.with(|w| w.get()) { script_with(hs_seq).1.stream().ends } else { Vec::new() },
     };
@@ -796,6 +804,7 @@ impl Family for SslRequests {
 
 thread_local! {
     static WRITE_FAULT: std::cell::Cell<Option<(usize, io::ErrorKind)>> = std::cell::Cell::new(None);
+    static READ_FAULT: std::cell::Cell<Option<(usize, io::ErrorKind)>> = std::cell::Cell::new(None);
     static AUTH_REJECT: std::cell::Cell<Option<u64>> = std::cell::Cell::new(None);
     static EOF_AT: std::cell::Cell<Option<usize>> = std::cell::Cell::new(None);
     static PER_MESSAGE: std::cell::Cell<bool> = std::cell::Cell::new(false);
@@ -938,6 +947,72 @@ impl Family for TlsWriteFaults {
     }
     fn describe(&self, idx: u64) -> J {
         json!({"transport_write": idx / 2, "fails_once_with": if idx % 2 == 0 { "Interrupted" } else { "WouldBlock" }, "shim": if self.reject { "rejects" } else { "accepts" }})
+    }
+}
+
+
+/// one transient `Interrupted` at each transport read of a TLS session (the one error kind a
+/// reader may retry): with the SSL request arriving alone, coalesced with the ClientHello, and
+/// under small reads. Either nothing changes for client and shim, or run_on reports a transport
+/// error - but an honest client must never be told (by a fatal TLS alert) that its traffic was
+/// corrupt: that would mean bytes it sent were interpreted twice or not at all.
+struct TlsReadInterruptions {
+    modes: Vec<(Vec<usize>, usize, usize)>,
+}
+impl TlsReadInterruptions {
+    fn new() -> Self {
+        let mut modes = Vec::new();
+        for (cuts, uniform) in [(vec![], usize::MAX), (vec![36usize], usize::MAX), (vec![], 1400usize), (vec![36], 311)] {
+            let o = run_tls(Some(pki().server_plain.clone()), false, cuts.clone(), uniform);
+            modes.push((cuts, uniform, o.st.reads));
+        }
+        TlsReadInterruptions { modes }
+    }
+    fn locate(&self, idx: u64) -> (usize, usize) {
+        let mut r = idx as usize;
+        for (m, (_, _, n)) in self.modes.iter().enumerate() {
+            if r < *n {
+                return (m, r);
+            }
+            r -= n;
+        }
+        unreachable!()
+    }
+}
+impl Family for TlsReadInterruptions {
+    fn name(&self) -> String {
+        "tls-one-interrupted-read".into()
+    }
+    fn len(&self) -> u64 {
+        self.modes.iter().map(|m| m.2 as u64).sum()
+    }
+    fn run(&self, idx: u64, st: &mut Stats) -> Result<(), Violation> {
+        let (m, at) = self.locate(idx);
+        let (cuts, uniform, n) = &self.modes[m];
+        st.nontrivial += 1;
+        st.bump("tls_read_interruptions");
+        READ_FAULT.with(|w| w.set(Some((at, io::ErrorKind::Interrupted))));
+        let o = run_tls(Some(pki().server_plain.clone()), false, cuts.clone(), *uniform);
+        READ_FAULT.with(|w| w.set(None));
+        st.transitions += o.st.reads as u64;
+        let what = format!("Interrupted once at transport read {} of {} (read boundaries {:?}, reads of at most {})", at, n, cuts, if *uniform == usize::MAX { "everything".to_string() } else { uniform.to_string() });
+        match &o.res {
+            ConnResult::Panic(l, m) => return Err(Violation::new(panic_key(l, m), format!("{}: run_on panicked at {}: {}", what, l, m))),
+            ConnResult::ErrIo(..) => {
+                if let Some(e) = &o.st.tls_error {
+                    return Err(Violation::new("honest-client-told-its-traffic-is-corrupt", format!("{}: run_on returned {} and the client received: {}", what, o.res.short(), e)));
+                }
+                st.bump("tls_read_interruption_reported");
+                return Ok(());
+            }
+            _ => {}
+        }
+        st.bump("tls_read_interruption_absorbed");
+        judge(&o, false, &what, st)
+    }
+    fn describe(&self, idx: u64) -> J {
+        let (m, at) = self.locate(idx);
+        json!({"transport_read": at, "fails_once_with": "Interrupted", "read_boundaries": self.modes[m].0, "reads_of_at_most": self.modes[m].1})
     }
 }
 
@@ -1402,6 +1477,7 @@ pub fn build(quick: bool) -> Check {
     families.push(Box::new(TlsEof::new(quick, true, true)));
     families.push(Box::new(TlsWriteFaults::new(false)));
     families.push(Box::new(TlsWriteFaults::new(true)));
+    families.push(Box::new(TlsReadInterruptions::new()));
     for cc in [false, true] {
         let cfg = if cc { pki().server_client_auth.clone() } else { pki().server_plain.clone() };
         let stream = run_tls_with(Some(cfg), cc, vec![], usize::MAX, 0, true).st.to_server;
@@ -1417,7 +1493,7 @@ pub fn build(quick: bool) -> Check {
     Check {
         id: "C18",
         level: "model_checking",
-        rule: "a live rustls client inside the transport: SSLRequest (plaintext) immediately followed by the ClientHello, then, once the server's flight arrived, Finished (+ client certificate) coalesced with the encrypted HandshakeResponse41 and six pipelined commands, among them a 20000-byte query (several inbound TLS records) answered by a resultset with a 40000-byte cell and 250 rows (115 KB: several outbound records, more than rustls buffers unsent). Schedules: every single cut position of the whole client->server stream (quick: every position of the first 1600 bytes and within 6 bytes of each TLS record header, every 13th elsewhere), every pair of cut positions within SSLRequest+ClientHello (thorough: every pair within the first 1100 bytes), uniform read sizes 1..64; with and without a client certificate; the single cuts again with a TLS 1.2 client; ClientHello sizes (padded with ALPN names) swept across 3.6-4.2 KB, 7.8-8.3 KB, 15.9-16.5 KB and up to 60 KB, coalesced with the SSL request or not; SSL requests in the pre-4.1 layout (naming another user in the clear) and connection-phase sequence ids other than 1, 2; ClientHello records with legacy versions 0x0300..0x0303 and a handshake response inside TLS that does not repeat CLIENT_SSL; the client's stream ending (without close_notify) at every such position of a TLS 1.3 and a TLS 1.2 session - with all messages in one burst of records and with one record per message; Ok is only acceptable exactly between two TLS records; each transport write of a TLS session failing once with Interrupted / WouldBlock, with an accepting and a rejecting shim; plus a TLS-requesting client against a shim without TLS configuration under every cut of its first flight. Plus every history of 3-4 (thorough: 5) commands of every kind (PREPARE, long data, EXECUTE, CLOSE, queries, PING) inside a TLS session under whole, 7- and 61-byte reads; replies of every size within -220..+60 bytes of 16 KiB and 32 KiB (thorough: 4..128 KiB) inside TLS; a handshake response inside TLS in the pre-4.1 layout; a client that sends close_notify before the login packet, inside packets and at every command boundary (Ok exactly at boundaries behind the login). Oracle: user name and certificate chain at after_authentication, callback log = script, every server byte after the greeting lies in a well-formed TLS record the client accepts, decrypted replies decode strictly with the right sequence ids, run_on returns Ok; no-config case: Err and no callback.".into(),
+        rule: "a live rustls client inside the transport: SSLRequest (plaintext) immediately followed by the ClientHello, then, once the server's flight arrived, Finished (+ client certificate) coalesced with the encrypted HandshakeResponse41 and six pipelined commands, among them a 20000-byte query (several inbound TLS records) answered by a resultset with a 40000-byte cell and 250 rows (115 KB: several outbound records, more than rustls buffers unsent). Schedules: every single cut position of the whole client->server stream (quick: every position of the first 1600 bytes and within 6 bytes of each TLS record header, every 13th elsewhere), every pair of cut positions within SSLRequest+ClientHello (thorough: every pair within the first 1100 bytes), uniform read sizes 1..64; with and without a client certificate; the single cuts again with a TLS 1.2 client; ClientHello sizes (padded with ALPN names) swept across 3.6-4.2 KB, 7.8-8.3 KB, 15.9-16.5 KB and up to 60 KB, coalesced with the SSL request or not; SSL requests in the pre-4.1 layout (naming another user in the clear) and connection-phase sequence ids other than 1, 2; ClientHello records with legacy versions 0x0300..0x0303 and a handshake response inside TLS that does not repeat CLIENT_SSL; the client's stream ending (without close_notify) at every such position of a TLS 1.3 and a TLS 1.2 session - with all messages in one burst of records and with one record per message; Ok is only acceptable exactly between two TLS records; each transport write of a TLS session failing once with Interrupted / WouldBlock, with an accepting and a rejecting shim; each transport read of a TLS session (SSL request alone or coalesced with the ClientHello, whole and small reads) failing once with Interrupted (retried unnoticed, or reported - but never answered with a fatal TLS alert to the honest client); plus a TLS-requesting client against a shim without TLS configuration under every cut of its first flight. Plus every history of 3-4 (thorough: 5) commands of every kind (PREPARE, long data, EXECUTE, CLOSE, queries, PING) inside a TLS session under whole, 7- and 61-byte reads; replies of every size within -220..+60 bytes of 16 KiB and 32 KiB (thorough: 4..128 KiB) inside TLS; a handshake response inside TLS in the pre-4.1 layout; a client that sends close_notify before the login packet, inside packets and at every command boundary (Ok exactly at boundaries behind the login). Oracle: user name and certificate chain at after_authentication, callback log = script, every server byte after the greeting lies in a well-formed TLS record the client accepts, decrypted replies decode strictly with the right sequence ids, run_on returns Ok; no-config case: Err and no callback.".into(),
         assumptions: vec![
             "ring's randomness is not owned: handshake bytes differ between runs and with a client certificate the stream length varies by a byte or two; cut positions are taken from the stream actually produced, the verdict does not depend on the random values".into(),
             "flush behaviour is C12's subject; here written bytes are visible to the client at once".into(),
@@ -1426,6 +1502,6 @@ pub fn build(quick: bool) -> Check {
         exhaustive: true,
         caps_hit: vec![],
         families,
-        required: vec!["tls_walks", "tls_goodbyes", "tls_reply_sizes", "tls_client_quirks", "tls_eof_inside_a_record", "tls_write_faults", "ssl_request_variants", "client_hello_beyond_4096_bytes", "client_hello_in_two_records", "tls12_handshakes", "splits_inside_client_hello", "splits_inside_ssl_request", "ssl_request_coalesced_with_client_hello", "client_chains_delivered", "refusals", "tls_records_from_server"],
+        required: vec!["tls_walks", "tls_goodbyes", "tls_reply_sizes", "tls_client_quirks", "tls_eof_inside_a_record", "tls_write_faults", "tls_read_interruptions", "ssl_request_variants", "client_hello_beyond_4096_bytes", "client_hello_in_two_records", "tls12_handshakes", "splits_inside_client_hello", "splits_inside_ssl_request", "ssl_request_coalesced_with_client_hello", "client_chains_delivered", "refusals", "tls_records_from_server"],
     }
 }
